@@ -88,7 +88,49 @@ def _fold_env(ctx, mi, names):
 
 
 # ------------------------------------------------------------------ melody
+def melody_scenarios(ctx, rule):
+  """Location-independent, finite scenarios: MelodyOneHotEncoding maps the two special events to indices 0 and 1 and pitch p of
+  [min_note, max_note) to p - min_note + 2, and decode_event is its inverse.  Both functions are read path by path
+  (sa.pathval); for three ranges ((0, 128), (1, 2), (48, 84)) and the events -2, -1, min_note, min_note + 1, max_note - 1 the
+  value returned on the path whose conditions hold is folded and compared; the same for the indices 0, 1, 2 and the last one."""
+  from sa import pathval, scenario
+  ci = ctx.cls('melody_encoder_decoder:MelodyOneHotEncoding')
+  enc, dec = ci.methods['encode_event'], ci.methods['decode_event']
+
+  def value(m, arg, val, lo, hi):
+    try:
+      ps = [(c, e) for c, e, end in pathval.paths(m.node.body, opaque=True) if end == 'return' and pathval.RETURN in e]
+    except pathval.PathError as e_:
+      return ('unknown', str(e_))
+    sub = {m.params()[1]: nf.rat(E(repr(val))), 'self._min_note': nf.rat(E(repr(lo))), 'self._max_note': nf.rat(E(repr(hi)))}
+    got = []
+    for conds, env in ps:
+      r = scenario.tv_all(conds, sub) if conds else True
+      if r is None:
+        return ('unknown', 'a condition cannot be evaluated')
+      if r:
+        got.append(scenario.fold_numeric(env[pathval.RETURN], sub))
+    if len(got) != 1 or got[0] is None:
+      return ('unknown', '%d return paths apply' % len(got))
+    return ('value', got[0])
+  for lo, hi in ((0, 128), (1, 2), (48, 84)):
+    for event, want in ((-2, 0), (-1, 1), (lo, 2), (lo + 1, 3), (hi - 1, hi - lo + 1)):
+      if not (event < 0 or lo <= event < hi):
+        continue
+      for m, arg, val, w, what in ((enc, 'event', event, want, 'encode_event(%d)' % event), (dec, 'index', want, event, 'decode_event(%d)' % want)):
+        kind, v = value(m, arg, val, lo, hi)
+        cons = 'MelodyOneHotEncoding(%d, %d): %s == %d' % (lo, hi, what, w)
+        if kind == 'unknown':
+          why = 'cannot classify: %s' % v
+          ctx.ob(rule, m, m.node, False, why, construct=cons, unknown=why)
+        else:
+          ctx.ob(rule, m, m.node, v == w, '%s = %s' % (what, v) if v == w else
+                 'with min_note %d and max_note %d, %s returns %s, not %d: %s' % (lo, hi, what, v, w, 'two events share an index / an index is never produced, so encode and decode are no longer inverse'),
+                 construct=cons, definite=True)
+
+
 def melody(ctx):
+  melody_scenarios(ctx, 'INV/melody-scenarios')
   ci = ctx.cls('melody_encoder_decoder:MelodyOneHotEncoding')
   enc, dec, nc = ci.methods['encode_event'], ci.methods['decode_event'], ci.methods['num_classes']
   env0 = _fold_env(ctx, ci.module, ['NUM_SPECIAL_MELODY_EVENTS'])
